@@ -2,15 +2,25 @@ import Q1t.Model.Expr
 import Q1t.Spec.ExprGrammar
 import Q1t.Gen.ExprPatterns
 import Q1t.Proofs.ExprTotal
+import Q1t.Proofs.ExprRoundTrip
+import Q1t.Proofs.ExprErrors
+import Q1t.Proofs.ExprValue
+import Q1t.Proofs.ExprClosed
 /-!
 # C14 — arithmetic expressions evaluate to their conventional value
 
 Property theorems only.  Statements are about the executable model `Q1t.Expr` of `src/expression.rs`
 (tied to the code by the correspondence run of `tools/check.py C14` and by the re-extracted pattern
-strings `Q1t.Gen.exprPatterns`) and about the reference grammar `Q1t.Spec.ExprGrammar`.
+strings `Q1t.Gen.exprPatterns`) and about the reference grammar `Q1t.Spec.ExprGrammar`
+(`Ast`, `Cst` = tree with layout and explicit parentheses, `Conv` = conventionally parenthesised,
+`layOut`/`render` = the conventional renderer, `Stops` = remainders that cannot continue an expression).
+`Q1t.Proofs.Expr.parsed c` is the expression the parser builds for `c`: the tree itself, except that a run
+of directly adjacent unary minus signs is cancelled pairwise (`--1` gives `1`), as
+`parse_negative_expression` does.  Proofs are in `Q1t/Proofs/Expr*.lean`.
 -/
 namespace Q1t.Props.C14
 open Q1t.Expr Q1t.Spec.ExprGrammar
+open Q1t.Proofs.Expr (parsed interpOf NoClose PowTo)
 
 /-- The regular expressions (and the function dispatch of `eval_with_parameters`) in `src/expression.rs`
 are, character for character, the ones the model re-implements. -/
@@ -18,7 +28,9 @@ theorem patterns_as_modelled :
     Q1t.Gen.exprPatterns = modelledPatterns ∧ Q1t.Gen.exprFunctionArms = modelledFunctionArms :=
   ⟨rfl, rfl⟩
 
-/-- Totality: for every text the model terminates with a value and a strictly shorter remainder, or with a
+/-! ## (1) totality -/
+
+/-- For every text the model terminates with a value and a strictly shorter remainder, or with a
 `ParseError`; the recursion budget (`length + 1`) is never exhausted, so no loop of the parser can
 spin without consuming input. -/
 theorem parse_total (s : List Char) :
@@ -32,5 +44,159 @@ theorem parse_consumes (s : List Char) (e : Expr) (r : List Char) (h : parse s =
 /-- No input reaches a panic site or exhausts the budget. -/
 theorem parse_never_panics (s : List Char) : parse s ≠ .panic ∧ parse s ≠ .fuel :=
   ⟨Q1t.Proofs.Expr.parse_ne_panic s, Q1t.Proofs.Expr.parse_ne_fuel s⟩
+
+/-! ## (2) errors -/
+
+/-- Text that cannot start an expression (after the blanks: nothing, or neither a digit, `.`, `-`, `(`,
+`pi` nor a function name) is rejected with `InvalidArgument(text)`. -/
+theorem parse_error_cannot_start (s : List Char) (h : cannotStart s = true) :
+    parse s = .err (.invalidArgument s) :=
+  Q1t.Proofs.Expr.parse_cannotStart s h
+
+/-- An open parenthesis (plain, or of a function call) whose content is a complete expression that is
+followed by neither `)` nor anything that continues the expression: `UnclosedParentheses(text)`.
+∀ contents `c` (any conventionally parenthesised tree, any layout), ∀ blanks, ∀ function, ∀ tail. -/
+theorem parse_error_unclosed (c : Cst) (hwf : c.WF = true) (hc : Conv c = true) (hs : c.bigInt = false)
+    (w w2 : List Char) (hw : w.all isBlank = true) (hw2 : w2.all isBlank = true) (f : Fn)
+    (tail : List Char) (ht : Stops tail = true ∧ Q1t.Proofs.Expr.headNB tail ≠ some ')') :
+    parse (w ++ '(' :: (c.flatten ++ tail)) = .err (.unclosedParentheses (w ++ '(' :: (c.flatten ++ tail))) ∧
+    parse (w ++ (f.name ++ (w2 ++ '(' :: (c.flatten ++ tail)))) =
+      .err (.unclosedParentheses (w ++ (f.name ++ (w2 ++ '(' :: (c.flatten ++ tail))))) :=
+  ⟨Q1t.Proofs.Expr.parse_unclosed_paren c hwf hc hs w hw tail ht,
+   Q1t.Proofs.Expr.parse_unclosed_call c hwf hc hs f w w2 hw hw2 tail ht⟩
+
+/-- A dangling binary operator: ∀ expression `c` (any conventionally parenthesised tree, any layout),
+∀ blanks, ∀ `op ∈ {+,-,*,/,^}`, ∀ `tail` that cannot start an expression:
+`parse (c ++ blanks ++ op ++ tail) = InvalidArgument(tail)`. -/
+theorem parse_error_dangling (c : Cst) (hwf : c.WF = true) (hc : Conv c = true)
+    (hs : c.bigInt = false) (w : List Char) (hw : w.all isBlank = true) (op : Char)
+    (hop : op = '+' ∨ op = '-' ∨ op = '*' ∨ op = '/' ∨ op = '^') (tail : List Char)
+    (ht : cannotStart tail = true) :
+    parse (c.flatten ++ (w ++ op :: tail)) = .err (.invalidArgument tail) := by
+  rcases hop with h | h | h | h | h
+  · exact Q1t.Proofs.Expr.parse_dangling_sum c hwf hc hs w hw op (.inl h) tail ht
+  · exact Q1t.Proofs.Expr.parse_dangling_sum c hwf hc hs w hw op (.inr h) tail ht
+  · exact Q1t.Proofs.Expr.parse_dangling_product_any c hwf hc hs w hw op (.inl h) tail ht
+  · exact Q1t.Proofs.Expr.parse_dangling_product_any c hwf hc hs w hw op (.inr h) tail ht
+  · subst h
+    exact Q1t.Proofs.Expr.parse_dangling_power_any c hwf hc hs w hw tail _
+      (Q1t.Proofs.Expr.cannotStart_levels ht).1
+
+/-- A signed exponent without parentheses is a dangling `^` (the text after `^` is not an operand of the
+power level): `c ^ blanks - anything` is rejected with `InvalidArgument(text after ^)`, ∀ `c`.
+(Documented divergence from calculators that accept `2^-1`; `2^(-1)` is accepted.) -/
+theorem parse_error_signed_exponent (c : Cst) (hwf : c.WF = true) (hc : Conv c = true)
+    (hs : c.bigInt = false) (w w' : List Char) (hw : w.all isBlank = true)
+    (hw' : w'.all isBlank = true) (t : List Char) :
+    parse (c.flatten ++ (w ++ '^' :: (w' ++ '-' :: t))) = .err (.invalidArgument (w' ++ '-' :: t)) :=
+  Q1t.Proofs.Expr.parse_dangling_power_any c hwf hc hs w hw _ _ (Q1t.Proofs.Expr.powTo_minus w' t hw')
+
+/-! ## (3) round trip and value -/
+
+/- Full statement wanted (property C14): for every `Ast` with well-formed tokens, every layout and every
+remainder that `Stops`, `parse (render ast layout ++ rest)` succeeds with remainder `rest` and a value
+equal to the conventional value of `ast`.  The pinned code violates it for integer literals ≥ 2^64
+(`parse::<u64>()` fails; known finding `C14-int-literal-overflow`, witness below), so the theorems
+carry the decidable hypothesis `bigInt = false`. -/
+
+/-- Round trip for concrete syntax: ∀ tree `c` (well-formed tokens, blank layout strings, conventional
+parenthesisation plus any redundant parentheses, no integer literal ≥ 2^64), ∀ remainder that `Stops`:
+the parser returns `parsed c` and hands back exactly `rest`; and for every interpretation of the float
+operations with involutive negation, the value is the conventional value of the tree. -/
+theorem parse_cst_partial (c : Cst) (hwf : c.WF = true) (hc : Conv c = true) (hs : c.bigInt = false)
+    (rest : List Char) (hr : Stops rest = true) :
+    parse (c.flatten ++ rest) = .ok (parsed c, rest) ∧
+    ∀ {F : Type} (I : FloatOps F), (∀ x, I.neg (I.neg x) = x) →
+      eval I (parsed c) = .ok (evalConv (interpOf I) c.toAst) :=
+  ⟨Q1t.Proofs.Expr.parse_flatten c hwf hc hs rest hr,
+   fun I hneg => Q1t.Proofs.Expr.eval_parsed I hneg c⟩
+
+/-- The same at the level of IEEE doubles: the code's interpretation (`str::parse::<f64>` on the matched
+text, `+ - * /`, `powf`, libm) against the reference interpretation (nearest double of the token's
+decimal value, same operations).  Without directly adjacent minus signs unconditionally; with them
+(`--x`) under the hypothesis that `Float` negation is an involution (true of IEEE negation, not
+provable about Lean's opaque `Float`). -/
+theorem parse_cst_ieee_partial (c : Cst) (hwf : c.WF = true) (hc : Conv c = true) (hs : c.bigInt = false)
+    (rest : List Char) (hr : Stops rest = true) :
+    parse (c.flatten ++ rest) = .ok (parsed c, rest) ∧
+    (c.adjNeg = false → eval floatOps (parsed c) = .ok (evalConv ieee c.toAst)) ∧
+    ((∀ x : Float, - -x = x) → eval floatOps (parsed c) = .ok (evalConv ieee c.toAst)) := by
+  refine ⟨Q1t.Proofs.Expr.parse_flatten c hwf hc hs rest hr, fun h => ?_, fun h => ?_⟩
+  · rw [Q1t.Proofs.Expr.eval_parsed_noAdj floatOps c h,
+      Q1t.Proofs.Expr.evalConv_ieee _ (Q1t.Proofs.Expr.cst_ast_wf c hwf)]
+  · rw [Q1t.Proofs.Expr.eval_parsed floatOps h c,
+      Q1t.Proofs.Expr.evalConv_ieee _ (Q1t.Proofs.Expr.cst_ast_wf c hwf)]
+
+/-- A literal is read the same way by the code (re-lexing the matched text) and by the reference
+(nearest double of the decimal value of the token): ∀ well-formed tokens. -/
+theorem literal_bits_agree (t : LitTok) (ht : t.WF = true) :
+    litBits (Q1t.Proofs.Expr.litOf t) = t.bits :=
+  Q1t.Proofs.Expr.litBits_agree ht
+
+/-- Whatever `parse` returns, on any text at all, evaluates without `UnknownFunction`/`UnknownVariable`,
+under every interpretation and every parameter list. -/
+theorem parsed_eval_ok (s : List Char) (e : Expr) (r : List Char) (h : parse s = .ok (e, r))
+    {F : Type} (I : FloatOps F) (params : List (List Char × F)) : ∃ v, evalWith I params e = .ok v :=
+  Q1t.Proofs.Expr.eval_closed I params e (Q1t.Proofs.Expr.parse_closed h)
+
+/-- Round trip for the conventional renderer: ∀ `ast`, ∀ `layout` (blank strings and redundant-parenthesis
+flags), ∀ `rest` that `Stops`. -/
+theorem parse_render_partial (a : Ast) (l : Layout) (rest : List Char) (hwf : a.WF = true)
+    (hs : a.bigInt = false) (hl : l.OK) (hr : Stops rest = true) :
+    ∃ e, parse (render a l ++ rest) = .ok (e, rest) ∧
+      ∀ {F : Type} (I : FloatOps F), (∀ x, I.neg (I.neg x) = x) →
+        eval I e = .ok (evalConv (interpOf I) a) := by
+  obtain ⟨⟨g1, g2, g3, g4, _⟩, _⟩ := Q1t.Proofs.Expr.layOut_spec a 0 l (by omega) hl hwf
+  refine ⟨parsed (layOut a 0 l).1, Q1t.Proofs.Expr.parse_flatten _ g3 g2 (g4.trans hs) rest hr, ?_⟩
+  intro F I hneg
+  rw [Q1t.Proofs.Expr.eval_parsed I hneg, g1]
+
+/-! ## non-vacuity, witnesses (kernel-evaluated on the model) -/
+
+/-- `1 - 2 - 3`, `8/4/2`: left-associative; `2^3^2`: right-associative; `-2^2` is `-(2^2)`. -/
+example : parse "1-2 - 3".toList =
+    .ok (.difference (.difference (.value (.int ['1'])) (.value (.int ['2']))) (.value (.int ['3'])), []) := by
+  decide +kernel
+example : parse "2^3^2 , x".toList =
+    .ok (.power (.value (.int ['2'])) (.power (.value (.int ['3'])) (.value (.int ['2']))), " , x".toList) := by
+  decide +kernel
+example : parse "-2^2".toList = .ok (.negative (.power (.value (.int ['2'])) (.value (.int ['2']))), []) := by
+  decide +kernel
+
+/-- The hypotheses of `parse_cst_partial` are satisfiable, and its conclusion is what the kernel computes:
+`sin( 1.5e3 )*-pi` followed by `) 0`. -/
+example :
+    let c : Cst := .bin .mul (.app [] .sin [] (.lit [' '] (.dec ['1'] ['5'] (some ⟨'e', none, ['3']⟩))) [' '])
+      [] (.neg [] (.lit [] .pi))
+    c.WF = true ∧ Conv c = true ∧ c.bigInt = false ∧ Stops ") 0".toList = true ∧
+    c.flatten = "sin( 1.5e3 )*-pi".toList ∧
+    parse (c.flatten ++ ") 0".toList) = .ok (parsed c, ") 0".toList) := by
+  decide +kernel
+
+/-- Negative witness for the known finding `C14-int-literal-overflow`: the integer literal 2^64 is a
+well-formed token of the grammar, its conventional value is the double 2^64, and the parser rejects it;
+with a trailing `.` the same digits are accepted. -/
+theorem int_literal_overflow_rejected :
+    (LitTok.int "18446744073709551616".toList).WF = true ∧
+    (Ast.lit (.int "18446744073709551616".toList)).bigInt = true ∧
+    parse "18446744073709551616".toList = .err (.invalidArgument "18446744073709551616".toList) ∧
+    parse "18446744073709551616.".toList = .ok (.value (.real "18446744073709551616.".toList), []) := by
+  decide +kernel
+
+/-- Documented divergence: `2^-1` is rejected (`InvalidArgument("-1")`), `2^(-1)` is accepted. -/
+theorem signed_exponent_witness :
+    parse "2^-1".toList = .err (.invalidArgument "-1".toList) ∧
+    parse "2^(-1)".toList = .ok (.power (.value (.int ['2'])) (.negative (.value (.int ['1']))), []) := by
+  decide +kernel
+
+/-- Recorded behaviour: adjacent minus signs cancel at parse time; a literal is not extended past what the
+patterns admit (`1e5` is `1` then `e5`, `007` is `0` then `07`, `pixel` is `pi` then `xel`). -/
+theorem recorded_behaviour :
+    parse "--1".toList = .ok (.value (.int ['1']), []) ∧
+    parse "1e5".toList = .ok (.value (.int ['1']), "e5".toList) ∧
+    parse "007".toList = .ok (.value (.int ['0']), "07".toList) ∧
+    parse "pixel".toList = .ok (.value .pi, "xel".toList) ∧
+    parse "+1".toList = .err (.invalidArgument "+1".toList) := by
+  decide +kernel
 
 end Q1t.Props.C14
